@@ -237,6 +237,16 @@ PROPS = {
         rule="two thirds: generated rules-valid streams (CTE-encodable), each re-chunked twice and re-encoded once; one third: a single integer array of 0-11 boundary/random elements in chunked form with random data splits under a random format; distinct by event text; non-trivial = more than the header events",
         trusted_base=COMMON_TB,
     ),
+    "C21": dict(
+        claim="Lean model of struct field handling (CE/Marshal/Struct.lean): DecodeGoTags (omit / omit_empty / omit_zero / omit_never / name= / order=, panics included), shouldIncludeField under every default, extractFields' stable ordering, CamelCaseToSnakeCase (both regular expressions on ASCII) and ToStructFieldIdentifier, and the builder's key lookup (exact name, normalised identifier, case-insensitive setting). "
+              "Theorems for every field list, tag set and configuration: the emitted fields are sorted by order tag (emitted_in_tag_order), fields of equal order keep declaration order (declaration_order_among_equal_orders), the emitted fields are exactly the kept ones, once each (each_kept_field_once, emitted_length), the case-insensitive matching key ignores letter case, underscores and spaces and is idempotent. "
+              "Harness: random struct types (reflect.StructOf with random ce tags, names with acronyms and digits, int/string/slice/pointer fields in zero/empty/non-zero states) under both name styles x 4 omit defaults x both case settings: the keys the real iterator emits, in order, must be the model's (STRUCT.EMIT); documents with exact, re-cased, snake-cased, separator-laden and unknown keys: the field the real builder fills must be the model's (STRUCT.LOOKUP), unknown keys must not disturb other fields, and a struct must round-trip under its own configuration",
+        note="partial: ASCII field names only (the regular expressions and lower-casing are ASCII-defined); embedded structs are exercised under C04/C05 (declared types), not with tags. Not judged (DESIGN.md D35): with snake-case names and case-SENSITIVE matching the builder does not know the snake-cased spelling, so the marshaler's own keys are skipped on the way back - the property only promises matching 'by name'. Field sets in which two fields claim the same document name (exactly or after normalisation) are excluded: Go's map iteration order decides there",
+        level="proof", n_quick=12000, n_thorough=600000, shards=16,
+        lean_modules=["CE.Props.C21"],
+        rule="even cases: emission (1-6 fields, random tags/values/config); odd cases: lookup (all-int struct, one probed key of 8 kinds + possibly one known key); distinct by descriptor text",
+        trusted_base=COMMON_TB + ["Go regexp semantics of the two snake-case expressions are modelled by hand and tied by STRUCT.EMIT on names with acronyms, digits and underscores"],
+    ),
     # NEW-ENTRIES-ABOVE
 }
 
